@@ -34,6 +34,7 @@ from guppylang_internals.nodes import PlaceNode  # noqa: E402
 from guppylang_internals.tys.ty import InputFlags  # noqa: E402
 
 RECORDED = []
+TAG = "c"
 _orig = mc.compile_modified_block
 
 
@@ -353,13 +354,13 @@ def observe(pkg):
 
 def run_case(case, scratch, idx):
     src = program(case)
-    path = os.path.join(scratch, f"prog_{idx}.py")
+    path = os.path.join(scratch, f"prog_{TAG}_{idx}.py")
     with open(path, "w") as f:
         f.write(src)
     res = {"id": case.get("id", idx), "source": src}
     RECORDED.clear()
     try:
-        spec = importlib.util.spec_from_file_location(f"c25prog_{idx}", path)
+        spec = importlib.util.spec_from_file_location(f"c25prog_{TAG}_{idx}", path)
         mod = importlib.util.module_from_spec(spec)
         sys.modules[spec.name] = mod
         spec.loader.exec_module(mod)
@@ -385,7 +386,9 @@ def run_case(case, scratch, idx):
 
 
 def main():
+    global TAG
     payload = json.load(sys.stdin)
+    TAG = payload.get("tag", "c")
     scratch = os.getcwd()
     out = [run_case(c, scratch, i) for i, c in enumerate(payload["cases"])]
     json.dump(out, sys.stdout)
